@@ -34,7 +34,7 @@ print("@@REPLAY@@" + json.dumps(out))
 '''
 
 
-def run_replay(code, raises_is_violation=False, timeout=600):
+def run_replay(code, raises_is_violation=False, timeout=180):
     src = _WRAP.format(repo=REPO, verif=VERIF, code=code, rv=raises_is_violation)
     try:
         p = subprocess.run([PY if os.path.exists(PY) else sys.executable, "-c", src], capture_output=True,
@@ -47,8 +47,18 @@ def run_replay(code, raises_is_violation=False, timeout=600):
     return dict(violated=False, error="no replay output: " + p.stderr[-800:])
 
 
+MAX_REPLAYS = int(os.environ.get("PYVC_MAX_REPLAYS", "6"))
+_n_replays = [0]
+
+
 def attach(ob, code, raises_is_violation=False):
-    """Run the replay for a failed obligation and attach the outcome."""
+    """Run the replay for a failed obligation and attach the outcome (at most MAX_REPLAYS per run: a broken
+    table or constructor fails thousands of sibling obligations, replaying each would take hours)."""
+    _n_replays[0] += 1
+    if _n_replays[0] > MAX_REPLAYS:
+        ob.replay = dict(code=code, raises_is_violation=raises_is_violation, confirmed=False,
+                         outcome=dict(skipped="replay budget of {} per run exhausted; run ./check <id> --replay <file>".format(MAX_REPLAYS)))
+        return ob
     res = run_replay(code, raises_is_violation)
     ob.replay = dict(code=code, raises_is_violation=raises_is_violation, outcome=res,
                      confirmed=bool(res.get("violated")))
